@@ -50,6 +50,7 @@ type HarnessSpec struct {
 	AtomicPkgs []string `json:"atomic_pkgs"`
 	Replay     string   `json:"replay"` // "direct" (default) | "none"
 	Note       string   `json:"note"`
+	InitPkgs   []string `json:"init_pkgs"` // packages whose variable initialisers are executed before the harness
 	Redirects  map[string]string `json:"redirects"` // callee (fully qualified) -> harness function implementing its contract
 	ReplayRepeat int    `json:"replay_repeat"`
 	NativeRace bool     `json:"native_race"`
@@ -311,7 +312,19 @@ func (e *Engine) runPath(w *Worker, entry *ssa.Function, prefix []Decision) (st 
 			}
 		}
 	}()
-	st.newThread(FuncV{Fn: entry}, nil, "main")
+	th := st.newThread(FuncV{Fn: entry}, nil, "main")
+	if len(e.spec.InitPkgs) > 0 {
+		st.initMode = true
+		st.cur = th
+		for _, pp := range e.spec.InitPkgs {
+			p := e.prog.ImportedPackage(pp)
+			if p == nil {
+				panic(pathAbort{kind: "UNSUPPORTED", msg: "init_pkgs: package not loaded: " + pp})
+			}
+			st.callSync(th, FuncV{Fn: p.Func("init")}, nil)
+		}
+		st.initMode = false
+	}
 	st.runAll()
 	return st, pathOutcome{"OK", ""}
 }
@@ -381,7 +394,7 @@ func (e *Engine) collect(st *State, out pathOutcome) {
 		}
 	}
 	for _, v := range st.violations {
-		// keep up to 6 candidate counterexamples per (label, site) that differ in their vrtChoice vector:
+		// keep up to 12 candidate counterexamples per (label, site) that differ in their vrtChoice vector:
 		// the reporter replays them natively in turn until one reproduces
 		same, dup := 0, false
 		for _, o := range e.violations {
@@ -392,7 +405,7 @@ func (e *Engine) collect(st *State, out pathOutcome) {
 				}
 			}
 		}
-		if !dup && same < 6 {
+		if !dup && same < 12 {
 			e.violations = append(e.violations, v)
 		}
 	}
